@@ -50,7 +50,7 @@ def parse_level(level):
 def route_case(draw):
     nmods = draw(st.integers(2, 3))
     nconn = draw(st.integers(1, 3))
-    hidden = draw(st.integers(0, 2)) == 0      # the node has a module which is not exported: nobody can subscribe to its log
+    hidden = draw(st.sampled_from([False, False, False, 'first', 'last']))      # the node has a module which is not exported: nobody can subscribe to its log
     ops = []
     levels = ['debug', 'info', 'warning', 'error', 'off', 'comlog', 'DEBUG', 'Info', 'OFF', 10, 20, 30, 40, 99, 15,
               'nonsense', '', 5, None, True, 1.5, [], {'a': 1}, 'warn', 'critical', 50, 0, -1, 20.0]
@@ -81,7 +81,9 @@ def _check_route(ctx, case, Module):
     classes = [type(f'L{i}', (Module,), {}) for i in range(case['nmods'])]
     cfg = {f'm{i}': {'cls': c, 'description': 'logging module'} for i, c in enumerate(classes)}
     if case.get('hidden'):
-        cfg['hid'] = {'cls': type('Hidden', (Module,), {}), 'description': 'not exported', 'export': False}
+        hid = {'cls': type('Hidden', (Module,), {}), 'description': 'not exported', 'export': False}
+        # (its place in the configuration: before or after the exported modules)
+        cfg = dict({'hid': hid}, **cfg) if case['hidden'] == 'first' else dict(cfg, hid=hid)
     elif any(op.get('mod') == 'hid' for op in case['ops']):
         return
     kit = Kit(cfg)
